@@ -4,7 +4,9 @@ import (
 	"bytes"
 	"compress/gzip"
 	"fmt"
+	"io"
 	"strings"
+	"sync"
 
 	"pgregory.net/rapid"
 )
@@ -116,13 +118,6 @@ func rawHeader(name string, typ byte, link string, size int64, badSum bool) []by
 	return h
 }
 
-func pad512(b []byte) []byte {
-	if r := len(b) % 512; r != 0 {
-		b = append(b, make([]byte, 512-r)...)
-	}
-	return b
-}
-
 func paxRecord(k, v string) string {
 	// "<len> k=v\n" where len counts the whole record including itself
 	base := len(k) + len(v) + 3
@@ -135,7 +130,12 @@ func paxRecord(k, v string) string {
 
 // buildTar renders the tar stream of a spec.
 func buildTar(spec ArchiveSpec, jail string) []byte {
-	var out []byte
+	var out tarBuf
+	est := 1024 * (spec.Trailer + 2)
+	for _, e := range spec.Entries {
+		est += 2048 + len(e.Name) + len(e.Link) + e.Len + len(e.Raw)
+	}
+	out.b = make([]byte, 0, est)
 	for _, e := range spec.Entries {
 		typ := byte('0')
 		if e.Type != "" {
@@ -161,14 +161,14 @@ func buildTar(spec ArchiveSpec, jail string) []byte {
 		case "gnu":
 			if len(name) > 0 {
 				ln := append([]byte(name), 0)
-				out = append(out, rawHeader("././@LongLink", 'L', "", int64(len(ln)), false)...)
-				out = append(out, pad512(ln)...)
+				out.add(rawHeader("././@LongLink", 'L', "", int64(len(ln)), false))
+				out.addPadded(ln)
 				hdrName = truncate(name, 100)
 			}
 			if len(link) > 100 {
 				lk := append([]byte(link), 0)
-				out = append(out, rawHeader("././@LongLink", 'K', "", int64(len(lk)), false)...)
-				out = append(out, pad512(lk)...)
+				out.add(rawHeader("././@LongLink", 'K', "", int64(len(lk)), false))
+				out.addPadded(lk)
 				hdrLink = truncate(link, 100)
 			}
 		case "pax":
@@ -187,18 +187,30 @@ func buildTar(spec ArchiveSpec, jail string) []byte {
 				}
 				rec.WriteString(paxRecord(kv[0], v))
 			}
-			out = append(out, rawHeader("PaxHeaders.0/e", 'x', "", int64(rec.Len()), false)...)
-			out = append(out, pad512([]byte(rec.String()))...)
+			out.add(rawHeader("PaxHeaders.0/e", 'x', "", int64(rec.Len()), false))
+			out.addPadded([]byte(rec.String()))
 		}
-		out = append(out, rawHeader(hdrName, typ, hdrLink, decl, e.BadSum)...)
-		out = append(out, pad512(data)...)
+		out.add(rawHeader(hdrName, typ, hdrLink, decl, e.BadSum))
+		out.addPadded(data)
 	}
-	out = append(out, make([]byte, 512*spec.Trailer)...)
-	if spec.CorruptTar > 0 && spec.CorruptTar <= len(out) {
-		out[spec.CorruptTar-1] ^= 0xff
+	out.add(make([]byte, 512*spec.Trailer))
+	if spec.CorruptTar > 0 && spec.CorruptTar <= len(out.b) {
+		out.b[spec.CorruptTar-1] ^= 0xff
 	}
-	return out
+	return out.b
 }
+
+type tarBuf struct{ b []byte }
+
+func (t *tarBuf) add(p []byte) { t.b = append(t.b, p...) }
+func (t *tarBuf) addPadded(p []byte) {
+	t.b = append(t.b, p...)
+	if r := len(p) % 512; r != 0 {
+		t.b = append(t.b, zeroBlock[:512-r]...)
+	}
+}
+
+var zeroBlock [512]byte
 
 // rawHeaderName returns what would remain in the 100-byte name field after the
 // ustar prefix split.
@@ -240,11 +252,16 @@ func buildArchive(spec ArchiveSpec, jail string) []byte {
 	return out
 }
 
+var gzPool = sync.Pool{New: func() any { w, _ := gzip.NewWriterLevel(io.Discard, gzip.BestSpeed); return w }}
+
 func gz(b []byte) []byte {
 	var buf bytes.Buffer
-	w, _ := gzip.NewWriterLevel(&buf, gzip.BestSpeed)
+	buf.Grow(len(b)/8 + 256)
+	w := gzPool.Get().(*gzip.Writer)
+	w.Reset(&buf)
 	_, _ = w.Write(b)
 	_ = w.Close()
+	gzPool.Put(w)
 	return buf.Bytes()
 }
 
@@ -308,7 +325,7 @@ func genEntry(t *rapid.T, i int, budget *int) Entry {
 	case "medium":
 		e.Len = rapid.IntRange(2000, 70000).Draw(t, l+"/mlen")
 	case "big":
-		e.Len = rapid.SampledFrom([]int{1 << 20, 2 << 20}).Draw(t, l+"/biglen")
+		e.Len = rapid.SampledFrom([]int{256 << 10, 1 << 20}).Draw(t, l+"/biglen")
 	default:
 		e.Len = rapid.IntRange(1, 300).Draw(t, l+"/slen")
 	}
@@ -372,7 +389,7 @@ func genEntry(t *rapid.T, i int, budget *int) Entry {
 func genHostile(t *rapid.T) ArchiveSpec {
 	spec := ArchiveSpec{Trailer: 2, Wrap: "gzip"}
 	n := rapid.IntRange(0, 6).Draw(t, "nentries")
-	budget := 3 << 20
+	budget := 2 << 20
 	for i := 0; i < n; i++ {
 		spec.Entries = append(spec.Entries, genEntry(t, i, &budget))
 	}
